@@ -56,12 +56,10 @@ func RecoverFromWAL(cfg *config.Config, opts *RecoveryOptions) ([]*MemTable, uin
 		// Get the current memtable
 		current := memTables[len(memTables)-1]
 
-		// Check if we should create a new memtable based on size
-		if current.ApproximateSize() >= opts.MemTableSize {
-			// Make sure we don't exceed the max number of memtables
-			if len(memTables) >= opts.MaxMemTables {
-				return fmt.Errorf("maximum number of memtables (%d) exceeded during recovery", opts.MaxMemTables)
-			}
+		// Check if we should create a new memtable based on size. Once the
+		// maximum number of memtables is reached the last one simply keeps
+		// growing: failing here would make the caller discard the whole log.
+		if current.ApproximateSize() >= opts.MemTableSize && len(memTables) < opts.MaxMemTables {
 
 			// Mark the current memtable as immutable
 			current.SetImmutable()
